@@ -612,6 +612,9 @@ impl BitVector {
         if start > end || end > self.len {
             return Err(ZiporaError::out_of_bounds(end, self.len));
         }
+        if start == end {
+            return Ok(()); // empty range: nothing to set (and `end - 1` below must not underflow)
+        }
 
         if is_x86_feature_detected!("avx2") {
             self.set_range_simd_avx2(start, end, value)?;
@@ -695,6 +698,9 @@ impl BitVector {
             return Err(ZiporaError::invalid_data(
                 "Invalid range for bulk operation".to_string(),
             ));
+        }
+        if start == end {
+            return Ok(()); // empty range
         }
 
         if is_x86_feature_detected!("avx2") {
